@@ -185,7 +185,7 @@ Section Realises.
       unfold field_qname in E.
       assert (Hpl : forall h, In h (cd_fields cd) -> plain_name (field_local h) = true).
       { intros h Hh. pose proof (wf_field_inv D h (wfc_fields D cd W h Hh)) as Wh. unfold field_local.
-        pose proof (wff_xml_name D h Wh) as H1. destruct (fd_xml_name h) as [[|x r]|]; try apply (wff_name D h Wh). exact H1. }
+        pose proof (wff_xml_name D h Wh) as H1. destruct (fd_xml_name h) as [[|x r]|]; try apply (wff_gen D h Wh). exact H1. }
       assert (Hns : forall h, In h (cd_fields cd) -> is_kind KElement h = true ->
                     exists n, oplain n /\ field_ns h (some_ns (class_P pns cd)) = some_ns n).
       { intros h Hh Hk. pose proof (wf_field_inv D h (wfc_fields D cd W h Hh)) as Wh. unfold field_ns.
